@@ -219,6 +219,32 @@ def run(ctx):
                                  'pdextract of the %s gives %r, the list of its values gives %r' % (form, got, want))
             except Exception as e:
                 ctx.fail(case, 'Series form raised %s: %s' % (type(e).__name__, str(e)[:200]))
+        # ---- other ways in: the module-level extract() with encoded examples, and rexpy_streams() with a list (with
+        #      and without a header line), called twice on the caller's own list: always the list form's expressions
+        if it % 2 == 0 and arg and all('\x00' not in s_ for s_ in arg):
+            import tdda.rexpy.rexpy as rx
+            import contextlib, io
+            prune = rng.choice([{}, {'min_strings_per_pattern': rng.choice([2, 3])}, {'max_patterns': rng.choice([1, 2])}])
+            try:
+                with contextlib.redirect_stdout(io.StringIO()):
+                    want_l = rx.extract(list(arg), seed=seed, **dict(opts, **prune))
+                    enc = rng.choice(['utf-8', 'utf-16-le'])
+                    got_b = rx.extract([s_.encode(enc, 'surrogatepass') for s_ in arg], encoding=enc, seed=seed, **dict(opts, **prune))
+                    mine = ['header line'] + list(arg)
+                    keep = list(mine)
+                    got_s1 = rx.rexpy_streams(mine, out_path=False, skip_header=True, seed=seed, **dict(opts, **prune))
+                    got_s2 = rx.rexpy_streams(mine, out_path=False, skip_header=True, seed=seed, **dict(opts, **prune))
+                    got_s3 = rx.rexpy_streams(list(arg), out_path=False, seed=seed, **dict(opts, **prune))
+                ctx.bump('other_entry_points')
+                pcase = dict(case, opts=dict(opts, **prune))
+                if list(got_b) != list(want_l):
+                    ctx.fail(dict(pcase, form='list of bytes, encoding=%s' % enc), 'encoded examples give %r, the same strings as text give %r' % (got_b, want_l))
+                if not (list(got_s1) == list(got_s2) == list(got_s3) == list(want_l)) or mine != keep:
+                    ctx.fail(dict(pcase, form='rexpy_streams(list)'), 'rexpy_streams on the list (header skipped, twice; no header) gives %r, %r, %r; '
+                             'extract gives %r; the caller\'s list %s' % (got_s1, got_s2, got_s3, want_l,
+                                                                         'is unchanged' if mine == keep else 'was changed to %r' % mine[:6]))
+            except Exception as e:
+                ctx.fail(case, 'extract(encoding=) / rexpy_streams(list) raised %s: %s' % (type(e).__name__, str(e)[:200]))
         # ---- repeating an example changes nothing
         if arg:
             more = list(arg) + [rng.choice(arg)] * rng.choice([1, 2, 7])
